@@ -798,9 +798,12 @@ var (
 	structLeaf = []string{"k=v", "j=1", "k=w", "a=1", "#c"}
 	lineForms  = []string{"k=v", " k = v ", "k=", "k", "=v", "k=v=w", "#c", "", "k=x y", "j=1", "k=w", "\tk\t=\tv\t", " # c", "#k=v", "k=#v",
 		"k==", "n=12", "n=-3", "f=1.5", "b=true", "b=false", "b=1", "n=2147483648", "n=99999999999999999999", "k 2=v", "K=v", "k=a>b", "k=é", "=", "a.b-c=1"}
-	skeletons    = [][2]string{{"", ""}, {"<a>\n", "</a>\n"}, {"<a>\n<b>\n", "</b>\n</a>\n"}, {"<a>\nk=0\n</a>\n<a>\n", "</a>\n"}}
-	malAlphabet  = []string{"k=v", "<a>", "</a>", "j=1", "<b>", "</b>", "k=a&b", "k=a<b", "<1a>", "<a", ">", "k=a]]>b", "#c&d"}
-	malExtra     = []string{"<!-- c -->", "<?x y?>", "<![CDATA[k=v]]>", "<a x=\"1\">", "<a/>", "<a:b>"}
+	skeletons = [][2]string{{"", ""}, {"<a>\n", "</a>\n"}, {"<a>\n<b>\n", "</b>\n</a>\n"}, {"<a>\nk=0\n</a>\n<a>\n", "</a>\n"}}
+	// "root" is the name of the parser's own sentinel element; the two declarations are ones the XML
+	// tokenizer refuses with an error that is not a syntax error (unsupported encoding / version)
+	malAlphabet = []string{"k=v", "<a>", "</a>", "j=1", "<b>", "</b>", "k=a&b", "k=a<b", "<1a>", "<a", ">", "k=a]]>b", "#c&d",
+		"</root>", "<root>", "<?xml version=\"1.0\" encoding=\"GBK\"?>", "<?xml version=\"1.1\"?>"}
+	malExtra     = []string{"<!-- c -->", "<?x y?>", "<?xml version=\"1.0\" encoding=\"UTF-8\"?>", "<![CDATA[k=v]]>", "<a x=\"1\">", "<a/>", "<a:b>"}
 	byteAlphabet = []byte{'a', '=', '\n', ' ', '<', '>', '/', '#', '&', '\r', 0x00, 0xff}
 	longLens     = []int{1000, 4095, 4096, 4097, 65533, 65534, 65535, 65536, 65537, 70000, 131072}
 )
